@@ -18,7 +18,7 @@ func init() {
 	reg(&Oblig{ID: "PDF-A-hl", Pkg: "pdf417", Func: "VP_PDF_hl", Props: []string{"C04", "C10"}, Desc: "highlevelEncode on symbolic bytes after concrete prefixes establishing text / byte / numeric / punctuation states: the reference decoder returns the data byte for byte",
 		Real: []string{"pdf417.highlevelEncode", "pdf417.encodeText", "pdf417.encodeBinary", "pdf417.encodeNumeric", "pdf417.determineConsecutive*"},
 		Stubs: []string{oracle, "math/big modelled for values below 2^63 (digit runs up to 17 digits); longer symbolic digit runs are outside the claim"},
-		Bound: "n <= 2 fully symbolic bytes after each of 6 prefixes quick; n <= 3 thorough",
+		Bound: "n <= 2 fully symbolic bytes after each of 6 prefixes quick; n <= 3 thorough; 1 symbolic byte between 5 prefixes (text runs ending in Upper/Lower/Mixed/Punctuation) and a concrete lower-case continuation",
 		Configs: func(tier string, seed int64) []map[string]int {
 			top := 2
 			if tier == "thorough" {
@@ -30,8 +30,14 @@ func init() {
 					if p == 0 && n == 0 {
 						continue
 					}
-					out = append(out, map[string]int{"n": n, "prefix": p})
+					out = append(out, map[string]int{"n": n, "prefix": p, "suffix": 0})
 				}
+			}
+			// one symbolic byte between a text run ending in each sub-mode and a concrete continuation
+			// (upper-case and punctuation continuations were tried: their well-formedness VCs exceed the
+			// 60 s time-out, so only the lower-case continuation is registered)
+			for _, p := range []int{1, 4, 6, 7, 8} {
+				out = append(out, map[string]int{"n": 1, "prefix": p, "suffix": 1})
 			}
 			return out
 		}})
